@@ -40,6 +40,7 @@ From Coq Require Import String Ascii Permutation.
 From Ygot Require Import Tree.Tree Tree.Codec Tree.TreeOps Tree.Unmarshal Tree.KeyCodec Tree.Leaves Tree.Node Path.PathRel.
 From Ygot Require Import Tree.MergeJson Tree.NodeFrameProofs Tree.NodeProofs Tree.NodeTotalProofs Tree.NodeExamples.
 From Ygot Require Import Tree.GnmiStatements.
+From Ygot Require Import Tree.SetReq Tree.SetReqSpec Tree.LeavesPartsProofs Tree.SetReqBridgeProofs.
 
 (* ---------- the guards are decidable ---------- *)
 Theorem c10_guard_sound : forall env fo ko S t,
@@ -326,3 +327,19 @@ Proof.
                 _ _ (YInt U16 []) [] (VInt U16 1400) t' eq_refl eq_refl eq_refl eq_refl eq_refl c10_root eq_refl
                 ltac:(discriminate) eq_refl Es) as (_ & (q & Hg) & _). eauto.
 Qed.
+
+(* ---------- the leaf-level form (Leaves.leaves, the gNMI paths of TogNMINotifications) ---------- *)
+
+(* "Every other leaf in the tree keeps its previous value, apart from the key leaves of list
+   entries created along p": on the leaf map that findUpdatedLeaves reports, a successful guarded
+   SetNode is exactly spec_update (the leaves at and below p replaced by the new value, the key
+   leaves of created entries added, every other leaf kept), and the invariant is preserved.
+   Guards: c13_inv2 (schema: c13_schemab; tree: root_ok) and update_guardb (leaf / leaf-list
+   target that is no key leaf, scalar payload of its type, complete canonical sorted keys, no
+   ordered or unkeyed list on the path).  Proved in Tree/SetReqBridgeProofs.v (shared with C13). *)
+Theorem c10_leaves_after_set : forall env fo ko sch,
+  leaves_after_set_leaf_stmt env fo ko sch no_opts (schema_sem env fo ko sch)
+    (fun t => leaves env ko false sch t []) (c13_inv2 env fo ko sch)
+    (fun p x => update_guardb env fo ko sch p x = true).
+Proof. exact leaves_after_set_holds. Qed.
+Print Assumptions c10_leaves_after_set.
